@@ -13,8 +13,8 @@ EXPLANATION = (
     "token dicts identical, HTML identical after mapping the documented places."
 )
 BOUNDS = {
-    "quick": "(1) s = 3 free characters; (2) 8 inline fragments x 1 free character x 5 contexts; (3) 7 scaffolds with 1-2 free characters, 4 options symbolic",
-    "thorough": "(1) 4 free characters; (2) 2 free characters; (3) FREE(3) documents",
+    "quick": "(1) s = 2 free characters; (2) 11 inline fragments x 1 free character x 5 contexts; (3) 7 scaffolds with 1 free character, xhtmlOut+breaks symbolic (highlight+langPrefix on the fence scaffolds)",
+    "thorough": "(1) 3 free characters; (2) 2 free characters; (3) 2 free characters with all four options symbolic, FREE(3) documents",
 }
 OUTSIDE = "fragments/contexts beyond the menus; typographer on; custom renderers"
 ASSUMPTIONS = ["(2) the statement's syntactic guards are assumptions: t trimmed, first character alphanumeric, no trailing '#', no | \\ ` in table cells; free characters exclude newline",
@@ -102,7 +102,11 @@ def _hl(code, lang, attrs):
 
 
 def _opt_free(params):
-    return scaffold_frees(params["scaffold"], params.get("spec", {})) + [Free("xh", kind="bool"), Free("br", kind="bool"), Free("hl", kind="bool"), Free("lp", exclude="")]
+    fr = scaffold_frees(params["scaffold"], params.get("spec", {}))
+    opts = params.get("opts", ["xh", "br", "hl", "lp"])
+    for o in opts:
+        fr.append(Free("lp", exclude="") if o == "lp" else Free(o, kind="bool"))
+    return fr
 
 
 def _opt_prepare(params):
@@ -119,6 +123,11 @@ def _opt_run(params, values):
     saved = {k: twin.options.get(k) for k in ("xhtmlOut", "breaks", "langPrefix", "highlight")}
     base.options["xhtmlOut"] = False
     base.options["breaks"] = False
+    values = dict(values)
+    values.setdefault("xh", False)
+    values.setdefault("br", False)
+    values.setdefault("hl", False)
+    values.setdefault("lp", "language-")
     twin.options["xhtmlOut"] = True if values["xh"] else False
     twin.options["breaks"] = True if values["br"] else False
     twin.options["langPrefix"] = values["lp"]
@@ -195,7 +204,7 @@ def jobs(tier, seed):
     jobs = []
     spec = {n: dict(NOCR) for n in "abcdefgh"}
     specnl = {n: dict(NOCRNL) for n in "abcdefgh"}
-    k = 3 if tier == "quick" else 4
+    k = 2 if tier == "quick" else 3
     for cfg in ((JS,) if tier == "quick" else (JS, CM)):
         _sharded(jobs, "single", {"cfg": cfg, "scaffold": free_doc(k)}, weight=10, spec=spec)
     for name, frag in FRAGMENTS:
@@ -203,7 +212,13 @@ def jobs(tier, seed):
             frag = [p for q in frag for p in ([q, H("b")] if q == H("a") else [q])]
         jobs.append({"harness": "contexts", "params": {"cfg": JS, "fragment": frag, "spec": specnl, "name": name}, "weight": 6, "cpu_cap": 2400, "wall_cap": 3600})
     for sc in OPT_SCAFFOLDS:
-        jobs.append({"harness": "options", "params": {"cfg": JS, "scaffold": sc, "spec": spec, "name": "opts"}, "weight": 6, "cpu_cap": 2400, "wall_cap": 3600})
+        if tier == "quick":
+            fence = any(isinstance(p, str) and ("```" in p or "~~~" in p) for p in sc)
+            sc1 = [("x" if p == H("b") else p) for p in sc]
+            jobs.append({"harness": "options", "params": {"cfg": JS, "scaffold": sc1, "spec": spec, "name": "opts", "opts": ["hl", "lp"] if fence else ["xh", "br"]},
+                         "weight": 6, "cpu_cap": 2400, "wall_cap": 3600})
+        else:
+            jobs.append({"harness": "options", "params": {"cfg": JS, "scaffold": sc, "spec": spec, "name": "opts"}, "weight": 30, "cpu_cap": 6000, "wall_cap": 7200})
     if tier == "thorough":
         _sharded(jobs, "options", {"cfg": JS, "scaffold": free_doc(3, "\n"), "name": "opts-free"}, weight=12, spec=spec)
     return jobs
